@@ -148,6 +148,22 @@ _NUM_TYPES = ("u8", "u16", "u32", "u64", "u128", "usize", "i8", "i16", "i32", "i
 _NUM_FROM = re.compile(r"(u8|u16|u32|u64|u128|usize|i8|i16|i32|i64|i128|isize|f32|f64)::from")
 
 
+_WIDENING = set()   # cast expressions known to be unsigned widenings (value-preserving, commute with /c %c &c >>c)
+_UW = {"u8": 8, "u16": 16, "u32": 32, "u64": 64, "usize": 64, "u128": 128}
+
+
+def _is_widening(frm, to):
+    return frm in _UW and to in _UW and _UW[frm] <= _UW[to]
+
+
+def _mk_cast(frm, to, inner):
+    """cast expression in canonical position: an unsigned widening cast commutes with /c, %c, &c, >>c and is moved onto
+    the operand  ((x / 64) as usize  ==  (x as usize) / 64), so that both spellings normalise to the same expression"""
+    if _is_widening(frm, to) and inner[0] == "bin" and inner[1] in ("Div", "Rem", "BitAnd", "Shr") and inner[3][0] == "const":
+        return ("bin", inner[1], _mk_cast(frm, to, inner[2]), inner[3])
+    return ("cast", to, inner)
+
+
 def _small_value(e):
     """expression whose value is < 256 by construction: x % C or x & C with a small constant C"""
     if e[0] == "bin" and e[1] in ("Rem", "BitAnd"):
@@ -616,6 +632,16 @@ class Body:
             if rv["op"] in ("Shl", "Shr", "ShlUnchecked", "ShrUnchecked") and b_[0] == "cast" and _small_value(b_[2]):
                 # the type of a shift amount that is known to be small (x % 64, x & 63) carries no information
                 b_ = b_[2]
+            if rv["op"] in ("Shl", "Shr", "ShlUnchecked", "ShrUnchecked") and b_[0] == "bin" and b_[1] in ("Rem", "BitAnd") and b_[2][0] == "cast" and b_[3][0] == "const" \
+                    and b_[2][2][0] in ("arg", "var", "proj"):
+                # ... nor does the type x was converted to before the reduction, for a power-of-two modulus / a mask:
+                # (x as u64) % 64 == x % 64 == (x as u8) % 64
+                try:
+                    c_ = int(str(b_[3][1]))
+                    if (b_[1] == "Rem" and c_ > 0 and c_ & (c_ - 1) == 0 and c_ <= 256) or (b_[1] == "BitAnd" and 0 <= c_ < 256):
+                        b_ = ("bin", b_[1], b_[2][2], b_[3])
+                except ValueError:
+                    pass
             return ("bin", rv["op"], a_, b_)
         if k == "un":
             return ("un", rv["op"], self.operand_expr(rv["a"], stack))
@@ -628,7 +654,7 @@ class Body:
                     rest = inner[2][:-2]
                     return ("proj", inner[1], rest) if rest else inner[1]
                 return inner
-            return ("cast", rv["ty"], inner)
+            return _mk_cast(rv.get("from"), rv["ty"], inner)
         if k == "discr":
             return ("discr", self.place_expr(rv["pl"], stack), rv.get("ty"))
         if k == "agg":
@@ -657,9 +683,9 @@ class Body:
         if len(args) == 1 and len(ga) == 2 and ga[0] in _NUM_TYPES + ("bool",) and ga[1] in _NUM_TYPES + ("bool",):
             # lossless numeric conversions spelled with From / Into are `x as T`
             if decl.endswith("convert::From::from"):
-                return ("cast", ga[0], args[0])
+                return _mk_cast(ga[1], ga[0], args[0])
             if decl.endswith("convert::Into::into"):
-                return ("cast", ga[1], args[0])
+                return _mk_cast(ga[0], ga[1], args[0])
         if sn in TRANSPARENT_CALLS and args:
             return args[0]
         if sn.endswith("::index") or sn.endswith("::index_mut"):
